@@ -336,8 +336,28 @@ func splitFiles(t *rapid.T, e *Env, p *core.Program) (*core.Program, bool) {
 	}
 	n := rapid.IntRange(2, 3).Draw(t, "nsplit")
 	bodies := make([]strings.Builder, n)
-	for _, c := range chunks[1:] {
-		k := rapid.IntRange(0, n-1).Draw(t, "splitTo")
+	// one split in three is a contiguous cut: the file is cut at 1-2 declaration boundaries and the
+	// pieces keep their order, so that whatever a checker carries from one declaration to the next
+	// (one-shot flags, cursors, "previous" pointers) is carried across a file boundary when the
+	// files are analysed in order
+	contiguous := rapid.IntRange(0, 2).Draw(t, "splitContiguous") == 0
+	cuts := make([]int, 0, 2)
+	if contiguous {
+		for i := 1; i < n; i++ {
+			cuts = append(cuts, rapid.IntRange(1, len(chunks)-2).Draw(t, "splitCut"))
+		}
+	}
+	for ci, c := range chunks[1:] {
+		k := 0
+		if contiguous {
+			for _, cut := range cuts {
+				if ci >= cut {
+					k++
+				}
+			}
+		} else {
+			k = rapid.IntRange(0, n-1).Draw(t, "splitTo")
+		}
 		bodies[k].WriteString(strings.Join(c.Lines, "\n"))
 		bodies[k].WriteString("\n")
 	}
